@@ -16,7 +16,9 @@ included), setRange/clearRange (3-segment split), copyRange (byte fast path + ch
 (DefaultConfig specialisation), resize, operator==, allOne/allZero/allDefined/anyDefined, extract(start,size),
 insert(state,…), append, and arbitrary operation sequences.
 Covered by correspondence only (driver compares model AND spec with the implementation, no theorem yet):
-compareRange<ExtendedConfig>, extractBigInt/insertBigInt.
+compareRange<ExtendedConfig>, extractBigInt/insertBigInt, literal parsing (`parseBitVector`: model in C18/Literal.lean follows the
+spirit grammar and the container calls; the driver also checks the digit-by-digit grammar specification `specDigits`) and
+formatting (`operator<<` binary / hex).
 -/
 namespace Gatery.C18.Props
 open Gatery.C18 Gatery.Gen
